@@ -121,3 +121,79 @@ func RunUseEmpty(conf core.Config) *core.Result {
 	}
 	return res
 }
+
+// RunResetCaps implements RESET.caps: Reset makes a mat value empty; the
+// capacity fields (cap, capRows, capCols) bound what Slice* and Grow* may
+// expose of the backing array and describe the old shape, so the Reset method
+// of every type that has such a field assigns it (to zero), as Dense.Reset
+// does. A stale capacity lets GrowSym copy "elements not currently visible"
+// out of the emptied value and lets SliceTri carve a view out of it.
+func RunResetCaps(conf core.Config) *core.Result {
+	res := core.NewResult("RESETCAPS")
+	res.Rules = append(res.Rules, "RESET.caps: the Reset method of a mat type with capacity fields (cap, capRows, capCols) assigns each of them")
+	res.Configs = append(res.Configs, conf.String())
+	pkgs, err := core.Load(conf, "./mat")
+	if err != nil {
+		res.Brokenf("%v", err)
+		return res
+	}
+	for _, pkg := range pkgs {
+		info := pkg.TypesInfo
+		for _, f := range pkg.Syntax {
+			for _, d := range f.Decls {
+				fd, ok := d.(*ast.FuncDecl)
+				if !ok || fd.Body == nil || fd.Name.Name != "Reset" || fd.Recv == nil || len(fd.Recv.List) != 1 || len(fd.Recv.List[0].Names) != 1 {
+					continue
+				}
+				recv := info.Defs[fd.Recv.List[0].Names[0]]
+				if recv == nil {
+					continue
+				}
+				pt, ok := recv.Type().(*types.Pointer)
+				if !ok {
+					continue
+				}
+				st, ok := pt.Elem().Underlying().(*types.Struct)
+				if !ok {
+					continue
+				}
+				name := core.FuncName(pkg, fd)
+				assigned := map[string]bool{}
+				ast.Inspect(fd.Body, func(n ast.Node) bool {
+					as, ok := n.(*ast.AssignStmt)
+					if !ok {
+						return true
+					}
+					for _, l := range as.Lhs {
+						if sel, ok := ast.Unparen(l).(*ast.SelectorExpr); ok {
+							if id, ok := ast.Unparen(sel.X).(*ast.Ident); ok && core.ObjOf(info, id) == recv {
+								assigned[sel.Sel.Name] = true
+							}
+						}
+						if se, ok := ast.Unparen(l).(*ast.StarExpr); ok {
+							if id, ok := ast.Unparen(se.X).(*ast.Ident); ok && core.ObjOf(info, id) == recv {
+								for i := 0; i < st.NumFields(); i++ {
+									assigned[st.Field(i).Name()] = true
+								}
+							}
+						}
+					}
+					return true
+				})
+				for i := 0; i < st.NumFields(); i++ {
+					fn := st.Field(i).Name()
+					if len(fn) < 3 || fn[:3] != "cap" {
+						continue
+					}
+					res.Obligations++
+					res.Count("capacity_fields_of_resettable_types", 1)
+					if !assigned[fn] {
+						res.Add(core.Finding{Rule: "RESET.caps", Key: fmt.Sprintf("RESET.caps|%s|%s", name, fn), Pos: core.Pos(fd.Pos()), Func: name,
+							Msg: fmt.Sprintf("%s empties the receiver but leaves %s at the capacity of the old shape: a later Grow*/Slice* of the emptied value works on storage that is no longer part of it", name, fn)})
+					}
+				}
+			}
+		}
+	}
+	return res
+}
